@@ -18,21 +18,26 @@
 EXTENDS Naturals, Sequences, FiniteSets, TLC
 
 CONSTANTS Ops,            \* operation -> the sequence of rows it writes (a row is <<table, object>>)
-          SPLIT_COMMIT    \* negative control: commit after every object's rows instead of once per operation
+          SPLIT_COMMIT,   \* negative control: commit after every object's rows instead of once per operation
+          FAULTS,         \* how many transient storage faults (a statement or a COMMIT refused: "database is locked",
+                          \*   I/O error) the environment may inject
+          RETRY_AFTER_ROLLBACK   \* negative control: a refused COMMIT is answered by rollback-and-retry, which commits an
+                                 \*   empty transaction and acknowledges the operation
 
 OpNames == DOMAIN Ops
 Objects(op) == {Ops[op][i][2] : i \in DOMAIN Ops[op]}
 RowsOf(op) == {Ops[op][i] : i \in DOMAIN Ops[op]}
 
-VARIABLES disk, txn, cur, pos, acked, done, crashed
-vars == <<disk, txn, cur, pos, acked, done, crashed>>
+VARIABLES disk, txn, cur, pos, acked, done, crashed, faults, failed
+vars == <<disk, txn, cur, pos, acked, done, crashed, faults, failed>>
 
 Init == /\ disk = {} /\ txn = {} /\ cur = "none" /\ pos = 0
         /\ acked = {} /\ done = {} /\ crashed = FALSE
+        /\ faults = FAULTS /\ failed = {}
 
 Begin(op) == /\ ~crashed /\ cur = "none" /\ op \notin done
              /\ cur' = op /\ pos' = 1 /\ txn' = {}
-             /\ UNCHANGED <<disk, acked, done, crashed>>
+             /\ UNCHANGED <<disk, acked, done, crashed, faults, failed>>
 
 \* the last row of an object has just been written
 ObjectBoundary == pos > 1 /\ pos <= Len(Ops[cur]) /\ Ops[cur][pos][2] # Ops[cur][pos - 1][2]
@@ -42,29 +47,42 @@ Write == /\ ~crashed /\ cur # "none" /\ pos <= Len(Ops[cur])
             THEN disk' = disk \cup txn /\ txn' = {Ops[cur][pos]}
             ELSE txn' = txn \cup {Ops[cur][pos]} /\ UNCHANGED disk
          /\ pos' = pos + 1
-         /\ UNCHANGED <<cur, acked, done, crashed>>
+         /\ UNCHANGED <<cur, acked, done, crashed, faults, failed>>
 
 Commit == /\ ~crashed /\ cur # "none" /\ pos = Len(Ops[cur]) + 1
           /\ disk' = disk \cup txn /\ txn' = {}
           /\ pos' = pos + 1
-          /\ UNCHANGED <<cur, acked, done, crashed>>
+          /\ UNCHANGED <<cur, acked, done, crashed, faults, failed>>
+
+\* a transient storage fault: the statement at `pos` or the COMMIT is refused.  The error surfaces in the handler, the
+\* unit of work is abandoned (its rows never reach the disk) and the operation is reported as FAILED - not acknowledged.
+Fault == /\ ~crashed /\ cur # "none" /\ pos <= Len(Ops[cur]) + 1 /\ faults > 0
+         /\ faults' = faults - 1
+         /\ IF RETRY_AFTER_ROLLBACK /\ pos = Len(Ops[cur]) + 1
+            THEN /\ txn' = {} /\ UNCHANGED <<cur, pos, done, failed>>      \* rollback, then COMMIT again: nothing left to commit
+            ELSE /\ txn' = {} /\ cur' = "none" /\ pos' = 0
+                 /\ done' = done \cup {cur} /\ failed' = failed \cup {cur}
+         /\ UNCHANGED <<disk, acked, crashed>>
 
 Ack == /\ ~crashed /\ cur # "none" /\ pos = Len(Ops[cur]) + 2
        /\ acked' = acked \cup {cur} /\ done' = done \cup {cur}
        /\ cur' = "none" /\ pos' = 0
-       /\ UNCHANGED <<disk, txn, crashed>>
+       /\ UNCHANGED <<disk, txn, crashed, faults, failed>>
 
 \* process death at any instant; recovery rolls the open transaction back
 Crash == /\ ~crashed
          /\ crashed' = TRUE /\ txn' = {}
-         /\ UNCHANGED <<disk, cur, pos, acked, done>>
+         /\ UNCHANGED <<disk, cur, pos, acked, done, faults, failed>>
 
-Next == (\E op \in OpNames : Begin(op)) \/ Write \/ Commit \/ Ack \/ Crash
+Next == (\E op \in OpNames : Begin(op)) \/ Write \/ Commit \/ Ack \/ Crash \/ Fault
 Spec == Init /\ [][Next]_vars
 
 \* after recovery (crashed), what a fresh server finds is `disk`
 AckedDurable == crashed => \A op \in acked : RowsOf(op) \subseteq disk
 AllOrNothing == crashed => \A op \in OpNames : RowsOf(op) \subseteq disk \/ RowsOf(op) \cap disk = {}
+\* an operation reported as failed because of a storage fault left nothing behind; an acknowledged one is on disk at once
+FailedAbsent == \A op \in failed : RowsOf(op) \cap disk = {}
+AckedOnDisk == \A op \in acked : RowsOf(op) \subseteq disk
 NoOrphanWrites == \A r \in disk : \E op \in OpNames : r \in RowsOf(op)
 
 --------------------------------------------------------------------------
@@ -75,4 +93,6 @@ C09_atomic(e)   == e.rec = e.pre \/ e.rec = e.post
 C09_durable(e)  == e.acked => e.rec = e.post
 C09_onetxn(e)   == e.ncommits <= 1 /\ e.writes_outside = 0
 C09_openable(e) == e.broken = 0
+\* storage-fault experiments: what was acknowledged is in effect, what was refused left nothing behind
+C09_fault(e)    == (e.acked => e.rec = e.post) /\ (~e.acked => e.rec = e.pre)
 =============================================================================
